@@ -622,12 +622,7 @@ func judge(c *mc.Ctx, k kind, f fault, o outcome) {
 		}
 	}
 	// deadlines
-	var dl []wire.Event
-	for _, e := range o.events {
-		if e.Kind == "SetDeadline" {
-			dl = append(dl, e)
-		}
-	}
+	dl, rdl, wdl := deadlineEvents(o.events)
 	if k.timeout > 0 {
 		if len(dl) == 0 {
 			fail(c, "deadline", "deadline/never-armed/"+fam, "%s: no handshake deadline was armed", what)
@@ -637,9 +632,12 @@ func judge(c *mc.Ctx, k kind, f fault, o outcome) {
 			fail(c, "deadline", "deadline/arm/"+fam, "%s: first SetDeadline at +%v to +%v, want at +0s to +%v", what, dl[0].At.Sub(start), dl[0].T.Sub(start), k.timeout)
 		}
 		if o.hsErr == nil {
-			last := dl[len(dl)-1]
-			if !last.T.IsZero() {
-				fail(c, "deadline", "deadline/not-cleared/"+fam, "%s: the handshake succeeded but the deadline (+%v) is still armed", what, last.T.Sub(start))
+			last := rdl
+			if last.IsZero() {
+				last = wdl
+			}
+			if !last.IsZero() {
+				fail(c, "deadline", "deadline/not-cleared/"+fam, "%s: the handshake succeeded but the deadline (+%v) is still armed", what, last.Sub(start))
 			}
 		}
 		if f.cutAt >= 0 && f.cutErr == wire.ErrStall && o.hsErr != nil && !strings.HasPrefix(k.name, "obfs4-server") {
@@ -927,12 +925,7 @@ func ssTicketScenario(seed int64) mc.Scenario {
 			return
 		}
 		for i, ev := range events {
-			var dl []wire.Event
-			for _, e := range ev {
-				if e.Kind == "SetDeadline" {
-					dl = append(dl, e)
-				}
-			}
+			dl, rdl, wdl := deadlineEvents(ev)
 			if len(dl) == 0 {
 				fail(c, "deadline", "deadline/never-armed/scramblesuit-ticket", "connection %d (%s): no handshake deadline was armed", i+1, kinds[i])
 				continue
@@ -940,7 +933,7 @@ func ssTicketScenario(seed int64) mc.Scenario {
 			if dl[0].T.Sub(dl[0].At) != 60*time.Second {
 				fail(c, "deadline", "deadline/arm/scramblesuit-ticket", "connection %d (%s): deadline armed to +%v, want +60s", i+1, kinds[i], dl[0].T.Sub(dl[0].At))
 			}
-			if !dl[len(dl)-1].T.IsZero() {
+			if !rdl.IsZero() || !wdl.IsZero() {
 				fail(c, "deadline", "deadline/not-cleared/scramblesuit-"+kinds[i], "connection %d (%s handshake): Dial succeeded but the handshake deadline is still armed", i+1, kinds[i])
 			}
 		}
@@ -948,6 +941,26 @@ func ssTicketScenario(seed int64) mc.Scenario {
 			fail(c, "deadline", "deadline/stale-timer/scramblesuit-ticket", "an established connection failed: %v", errs[0])
 		}
 	}}
+}
+
+// deadlineEvents returns the deadline-setting calls made on a connection (in
+// order) and the read and write deadlines in force after the last of them
+// (SetDeadline sets both, SetReadDeadline / SetWriteDeadline one each).
+func deadlineEvents(evs []wire.Event) (calls []wire.Event, rd, wr time.Time) {
+	for _, e := range evs {
+		switch e.Kind {
+		case "SetDeadline":
+			rd, wr = e.T, e.T
+		case "SetReadDeadline":
+			rd = e.T
+		case "SetWriteDeadline":
+			wr = e.T
+		default:
+			continue
+		}
+		calls = append(calls, e)
+	}
+	return
 }
 
 // ---- socks5 --------------------------------------------------------------------------------
@@ -1027,13 +1040,8 @@ func socksScenarios(cfg *mc.Config, emit func(mc.Scenario)) {
 					if p < len(all) && ce.err == wire.ErrStall && endAt != 5*time.Second {
 						fail(c, "deadline", "deadline/timeout-instant/socks5", "%s: gave up at +%v, want +5s", what, endAt)
 					}
-					var dl []wire.Event
-					for _, e := range sw.Events {
-						if e.Kind == "SetDeadline" {
-							dl = append(dl, e)
-						}
-					}
-					if len(dl) < 2 || !dl[0].T.Equal(start.Add(5*time.Second)) || !dl[len(dl)-1].T.IsZero() {
+					dl, rdl, wdl := deadlineEvents(sw.Events)
+					if len(dl) < 2 || !dl[0].T.Equal(start.Add(5*time.Second)) || !rdl.IsZero() || !wdl.IsZero() {
 						fail(c, "deadline", "deadline/socks5", "%s: deadline not armed at entry / cleared at exit (%d calls)", what, len(dl))
 					}
 					outs[fmt.Sprintf("%d/%d err=%v", p, wf, herr != nil)] = true
